@@ -1,13 +1,14 @@
 (** C01 -- two concrete data objects (one per flavour) that meet every hypothesis of the
     whole-file theorems: 2 rock types (nad 0 and 2), 3 blocks, 2 connections, PARAM with
     two time-step lines and five default initial conditions, MOMOP, START, RPCAP,
-    LINEQ / SOLVR, MULTI, TIMES (9 times), a table generator with 5 times and enthalpies,
-    INCON; sections in a non-standard order.  Generated once from the harness's object
+    LINEQ / SOLVR, MULTI, TIMES (9 times), SELEC (two lines of reals), DIFFU, a table
+    generator with 5 times and enthalpies, FOFT, COFT, GOFT, INDOM, INCON; sections in a
+    non-standard order.  Generated once from the harness's object
     builder (tools/props/c01_gen.py), checked here by computation. *)
 From Coq Require Import Ascii String List Bool Arith ZArith NArith.
 From PTBase Require Import Exn PyStr PyNum PyVal Fmt FixedFormat.
 From Gen Require Import GenTables GenSections.
-From P Require Import Comb Obj Fields Sections SectionsB Rec SecRocks SecMesh SecGener SecMisc SecParam T2DataIO Whole.
+From P Require Import Comb Obj Fields Sections SectionsB Rec SecRocks SecMesh SecGener SecMisc SecParam SecHist SecSel T2DataIO Whole.
 Import ListNotations.
 Open Scope string_scope.
 
@@ -28,21 +29,21 @@ Definition example_autough2 : t2d :=
   []
   [("num_components", (XInt (2))); ("num_equations", (XInt (3))); ("num_phases", (XInt (2))); ("num_secondary_parameters", (XInt (6))); ("eos", (XStr (s2l "EWAV")))]
   (Some ([("num_times_specified", (XInt (9))); ("num_times", (XInt (9))); ("time_increment", (XReal false (3) (-1)))], [(XReal false (1) (0)); (XReal false (1) (1)); (XReal false (3) (0)); (XReal false (1) (2)); (XReal false (5) (0)); (XReal false (3) (1)); (XReal false (7) (0)); (XReal false (1) (3)); (XReal false (19) (-1))]))
-  None
-  []
+  (Some ([(XInt (2)); (XInt (0)); (XInt (0)); (XInt (1)); XNone; (XInt (5))], [(XReal false (1) (0)); (XReal false (5) (-1)); XNone; (XReal false (1) (2)); (XReal false (5) (0)); (XReal false (3) (1)); (XReal false (7) (0)); (XReal false (1) (3)); (XReal false (9) (0)); (XReal false (21) (-1))]))
+  [[(XReal false (5902958103587057) (-69)); (XReal false (4722366482869645) (-71))]; [(XReal false (8854437155380585) (-69)); (XReal false (0) (0))]]
   []
   [(mk_gen (s2l "AB105") (s2l "wel 1") XNone XNone XNone (XInt (5)) (s2l "MASS") (s2l "E") XNone XNone XNone XNone [(XReal false (0) (0)); (XReal false (125) (3)); (XReal false (125) (4)); (XReal false (375) (3)); (XReal false (125) (5))] [(XReal true (1) (0)); (XReal true (5) (-1)); (XReal true (3) (0)); (XReal true (1) (1)); (XReal false (0) (0))] [(XReal false (15625) (6)); (XReal false (34375) (5)); (XReal false (9375) (7)); (XReal false (40625) (5)); (XReal false (21875) (6))]); (mk_gen (s2l "AB 12") (s2l "inj 2") (XInt (0)) XNone XNone (XInt (1)) (s2l "HEAT") (s2l "") (XReal false (375) (2)) XNone XNone XNone [] [] [])]
   None
-  []
-  []
-  []
+  [(s2l "AB 12"); (s2l "wel 1")]
+  [((s2l "AB105"), (s2l "AB 12"))]
+  [(s2l "AB105")]
   [((s2l "AB 12"), (mk_inc (XReal false (1) (-2)) [(XReal false (3125) (5)); (XReal false (15) (0))] None)); ((s2l "AB105"), (mk_inc XNone [(XReal false (3125) (6)); (XReal false (125) (1)); (XReal false (3602879701896397) (-55))] (Some ((XInt (2)), (XInt (1))))))]
-  []
-  [(s2l "SIMUL"); (s2l "ROCKS"); (s2l "MULTI"); (s2l "START"); (s2l "ELEME"); (s2l "CONNE"); (s2l "PARAM"); (s2l "RPCAP"); (s2l "LINEQ"); (s2l "MOMOP"); (s2l "TIMES"); (s2l "GENER"); (s2l "INCON")]
+  [((s2l "rock2"), [(XReal false (3125) (5)); (XReal false (5) (2)); (XReal false (1) (-2))]); ((s2l "rock1"), [(XReal false (3125) (6))])]
+  [(s2l "SIMUL"); (s2l "ROCKS"); (s2l "MULTI"); (s2l "START"); (s2l "DIFFU"); (s2l "ELEME"); (s2l "CONNE"); (s2l "PARAM"); (s2l "RPCAP"); (s2l "LINEQ"); (s2l "MOMOP"); (s2l "TIMES"); (s2l "SELEC"); (s2l "GENER"); (s2l "COFT"); (s2l "FOFT"); (s2l "GOFT"); (s2l "INDOM"); (s2l "INCON")]
   (s2l "ENDCY")
   []
   true).
-Definition example_autough2_order : list string := ["SIMUL"; "ROCKS"; "MULTI"; "START"; "ELEME"; "CONNE"; "PARAM"; "RPCAP"; "LINEQ"; "MOMOP"; "TIMES"; "GENER"; "INCON"].
+Definition example_autough2_order : list string := ["SIMUL"; "ROCKS"; "MULTI"; "START"; "DIFFU"; "ELEME"; "CONNE"; "PARAM"; "RPCAP"; "LINEQ"; "MOMOP"; "TIMES"; "SELEC"; "GENER"; "COFT"; "FOFT"; "GOFT"; "INDOM"; "INCON"].
 Definition example_tough2 : t2d :=
 (mk_t2d
   (s2l "example problem")
@@ -60,21 +61,21 @@ Definition example_tough2 : t2d :=
   [("type", (XInt (5))); ("z_precond", (XStr (s2l "Z1"))); ("o_precond", (XStr (s2l "O0"))); ("relative_max_iterations", (XReal false (3602879701896397) (-55))); ("closure", (XReal false (4722366482869645) (-72)))]
   [("num_components", (XInt (2))); ("num_equations", (XInt (3))); ("num_phases", (XInt (2))); ("num_secondary_parameters", (XInt (6)))]
   (Some ([("num_times_specified", (XInt (9))); ("num_times", (XInt (9))); ("time_increment", (XReal false (3) (-1)))], [(XReal false (1) (0)); (XReal false (1) (1)); (XReal false (3) (0)); (XReal false (1) (2)); (XReal false (5) (0)); (XReal false (3) (1)); (XReal false (7) (0)); (XReal false (1) (3)); (XReal false (19) (-1))]))
-  None
-  []
+  (Some ([(XInt (2)); (XInt (0)); (XInt (0)); (XInt (1)); XNone; (XInt (5))], [(XReal false (1) (0)); (XReal false (5) (-1)); XNone; (XReal false (1) (2)); (XReal false (5) (0)); (XReal false (3) (1)); (XReal false (7) (0)); (XReal false (1) (3)); (XReal false (9) (0)); (XReal false (21) (-1))]))
+  [[(XReal false (5902958103587057) (-69)); (XReal false (4722366482869645) (-71))]; [(XReal false (8854437155380585) (-69)); (XReal false (0) (0))]]
   []
   [(mk_gen (s2l "AB105") (s2l "wel 1") XNone XNone XNone (XInt (5)) (s2l "MASS") (s2l "E") XNone XNone XNone XNone [(XReal false (0) (0)); (XReal false (125) (3)); (XReal false (125) (4)); (XReal false (375) (3)); (XReal false (125) (5))] [(XReal true (1) (0)); (XReal true (5) (-1)); (XReal true (3) (0)); (XReal true (1) (1)); (XReal false (0) (0))] [(XReal false (15625) (6)); (XReal false (34375) (5)); (XReal false (9375) (7)); (XReal false (40625) (5)); (XReal false (21875) (6))]); (mk_gen (s2l "AB 12") (s2l "inj 2") (XInt (0)) XNone XNone (XInt (1)) (s2l "HEAT") (s2l "") (XReal false (375) (2)) XNone XNone XNone [] [] [])]
   None
-  []
-  []
-  []
+  [(s2l "AB 12"); (s2l "wel 1")]
+  [((s2l "AB105"), (s2l "AB 12"))]
+  [(s2l "AB105")]
   [((s2l "AB 12"), (mk_inc (XReal false (1) (-2)) [(XReal false (3125) (5)); (XReal false (15) (0))] None)); ((s2l "AB105"), (mk_inc XNone [(XReal false (3125) (6)); (XReal false (125) (1)); (XReal false (3602879701896397) (-55))] (Some ((XInt (2)), (XInt (1))))))]
-  []
-  [(s2l "ROCKS"); (s2l "MULTI"); (s2l "START"); (s2l "ELEME"); (s2l "CONNE"); (s2l "PARAM"); (s2l "RPCAP"); (s2l "SOLVR"); (s2l "MOMOP"); (s2l "TIMES"); (s2l "GENER"); (s2l "INCON")]
+  [((s2l "rock2"), [(XReal false (3125) (5)); (XReal false (5) (2)); (XReal false (1) (-2))]); ((s2l "rock1"), [(XReal false (3125) (6))])]
+  [(s2l "ROCKS"); (s2l "MULTI"); (s2l "START"); (s2l "DIFFU"); (s2l "ELEME"); (s2l "CONNE"); (s2l "PARAM"); (s2l "RPCAP"); (s2l "SOLVR"); (s2l "MOMOP"); (s2l "TIMES"); (s2l "SELEC"); (s2l "GENER"); (s2l "COFT"); (s2l "FOFT"); (s2l "GOFT"); (s2l "INDOM"); (s2l "INCON")]
   (s2l "ENDCY")
   []
   true).
-Definition example_tough2_order : list string := ["ROCKS"; "MULTI"; "START"; "ELEME"; "CONNE"; "PARAM"; "RPCAP"; "SOLVR"; "MOMOP"; "TIMES"; "GENER"; "INCON"].
+Definition example_tough2_order : list string := ["ROCKS"; "MULTI"; "START"; "DIFFU"; "ELEME"; "CONNE"; "PARAM"; "RPCAP"; "SOLVR"; "MOMOP"; "TIMES"; "SELEC"; "GENER"; "COFT"; "FOFT"; "GOFT"; "INDOM"; "INCON"].
 
 Definition hyps_ok (d : t2d) (ks : list string) : bool :=
   match write_lines d with
